@@ -29,7 +29,7 @@ def projections(toks):
     """what is compared with the model: between two dials the supervisor's reports race with the
     script's own actions, so attempts/actions, reports and requests are compared as three sequences"""
     att = [t for t in toks if re.match(r"^(d\d+|hs|fail|norm|stop|a\d+)$", t)]   # (F / G markers are not compared)
-    rep = [t for t in toks if re.match(r"^r", t)]
+    rep = [t for t in toks if re.match(r"^r", t) or re.match(r"^c[UD]$", t)]   # calls returned / slow calls made
     snd = [t for t in toks if re.match(r"^s\d", t)]
     odd = [t for t in toks if t.startswith("!")]
     return att, rep, snd, odd
@@ -50,6 +50,12 @@ def clauses(up0, toks):
     pending_up = None  # index of an hs seen while Down, waiting for the Up report
     dials_since_hs = 0
     last_rep = None
+    # reports are logged when the SDK call RETURNS (cur = what EdgeX holds); a slow call is logged when
+    # it is made (cU / cD) and when it returns (r..h)
+    in_flight = None    # state of the slow call made and not yet returned
+    last_made = None    # state of the successful call the device made last: what it last told EdgeX
+    connected = False   # a connection stands (good handshake, no failure / end / Stop since)
+    fails_up = 0        # failed attempts since EdgeX was last told Up (an Up that returns late restarts the count)
     for i, t in enumerate(toks):
         if t.startswith("!nodial") or t.startswith("!noconn"):
             bad.append(("no-dial", "no further connection attempt although the device was not stopped (%s)" % t))
@@ -65,15 +71,20 @@ def clauses(up0, toks):
                 bad.append(("dial-after-stop", "attempt d%s after Stop" % m.group(1)))
             if int(m.group(1)) != addr:
                 bad.append(("addr-not-followed", "attempt dials address %s, last address set is %d" % (m.group(1), addr)))
-            if min(fails_hs, fails_g) >= 2 and cur != "D" and sdk_on and not sdk_failed:
+            if min(fails_hs, fails_g, fails_up) >= 2 and cur != "D" and sdk_on and not sdk_failed and in_flight is None:
                 bad.append(("down-missing", "%d attempts failed since the reader last accepted (%d since the SDK call works), next attempt starts and EdgeX does not hold Down" % (fails_hs, fails_g)))
             dials_since_hs += 1
             if pending_up is not None and dials_since_hs >= 2:
                 bad.append(("up-missing", "reader accepted a connection while Down and Up was not reported"))
                 pending_up = None
+        elif re.match(r"^c[UD]$", t):
+            in_flight = last_made = t[1]
+            if t[1] == "U":
+                pending_up = None      # the device made its call; how long it takes is EdgeX's business
         elif t == "hs":
             fails_hs = 0
             dials_since_hs = 0
+            connected = True
             pending_up = i if (cur == "D" and sdk_on and not sdk_failed) else None
         elif t == "F":
             sdk_on = False
@@ -85,17 +96,25 @@ def clauses(up0, toks):
             fails_hs += 1
             fails_norm += 1
             fails_g += 1
+            fails_up += 1
+            connected = False
             if pending_up is not None:
                 bad.append(("up-missing", "reader accepted a connection while Down and Up was not reported before it broke"))
                 pending_up = None
         elif t == "norm":
             fails_norm = 0
+            connected = False
         elif t == "stop":
             stopped = True
+            connected = False
         elif re.match(r"^a\d+$", t):
             addr = int(t[1:])
-        elif t.startswith("r") and len(t) == 3:
-            st, ok = t[1], t[2] == "+"
+        elif t.startswith("r") and (len(t) == 3 or (len(t) == 4 and t[3] == "h")):
+            st, ok, late = t[1], t[2] == "+", len(t) == 4
+            if late:
+                in_flight = None
+            elif ok:
+                last_made = st
             if st not in "UD":
                 bad.append(("bad-state", "operating state other than Up/Down reported"))
                 continue
@@ -107,6 +126,12 @@ def clauses(up0, toks):
                 if st == cur:
                     bad.append(("not-alternating", "state %s reported twice in a row (or equal to the initial state)" % st))
                 cur = st
+                if st == "U":
+                    fails_up = 0
+                if st == "D" and connected and not stopped:
+                    bad.append(("down-while-connected", "EdgeX is told Down while the reader holds a connection of the device (the report returned after the reader had accepted again)"))
+                if in_flight is None and last_made is not None and cur != last_made:
+                    bad.append(("report-overtaken", "calls returned in another order than they were made: EdgeX ends holding %s, the device last reported %s" % (cur, last_made)))
             else:
                 sdk_failed = True
         m = re.match(r"^s(\d+)/(\w+)$", t)
@@ -119,8 +144,10 @@ def clauses(up0, toks):
             if pending_up is not None:
                 bad.append(("up-missing", "reader accepted a connection while Down and Up was not reported"))
                 pending_up = None
-    if min(fails_hs, fails_g) >= 2 and cur != "D" and sdk_on and not sdk_failed:
+    if min(fails_hs, fails_g, fails_up) >= 2 and cur != "D" and sdk_on and not sdk_failed and in_flight is None:
         bad.append(("down-missing", "%d attempts failed since the reader last accepted (%d since the SDK call works) and EdgeX does not hold Down" % (fails_hs, fails_g)))
+    if connected and not stopped and cur != "U" and in_flight is None and sdk_on and not sdk_failed:
+        bad.append(("state-not-following-reachability", "the reader holds a connection of the device, no call is in flight and EdgeX holds Down"))
     if pending_up is not None:
         bad.append(("up-missing", "reader accepted a connection while Down and Up was never reported"))
     return bad
@@ -135,7 +162,14 @@ def nontrivial(script):
 def run(tier, seed, replay=None):
     res = vlib.Result(PID, tier, seed)
     res.assumptions = vlib.TRUSTED_COMMON + [
-        "one supervisor attempt (dial, handshake, end of connection) is atomic w.r.t. Stop/UpdateAddr/TrySend except for an established connection; Stop/UpdateAddr finish before the next attempt starts (the scripts are generated that way; interleavings inside an attempt are not modelled)",
+        "one supervisor attempt (dial, handshake, end of connection) is atomic w.r.t. UpdateAddr/TrySend except for an established connection; UpdateAddr finishes before the next attempt starts (the scripts are generated that way). "
+        "Not atomic any more (Driver/SupervisorFlight.v, classes hold / pend): an UpdateDeviceOperatingState call that returns late, and Stop / RemoveDevice arriving while a dial is neither accepted nor refused",
+        "slow SDK call: the recording SDK holds ONE call at a time (made at H, returns at R; calls made meanwhile return at once); reports are judged in the order in which the calls RETURN. "
+        "Scripts never keep an Up call in flight across the NEXT connection (two onConnect goroutines overlap: the tree then tells EdgeX Up twice in a row, Example C15_flight_two_up_in_a_row; needs a call that outlasts a whole outage) "
+        "and script no further connection once a connection ended while its Up call was in flight (that onConnect still has its SetReaderConfig to send). "
+        "'Down once two attempts have failed' is read from the moment EdgeX was last told Up: an Up that returns after its connection has gone restarts the count (C15_edgex_down_after_two)",
+        "pending dial: Linux loopback listener with listen backlog 0 whose accept queue is filled by the harness and never drained: further SYNs are dropped, the dial hangs and retransmits after 1 s / 3 s; the scenario first probes that a dial really hangs "
+        "and is skipped (pending_dial_scenarios_skipped in the evidence) otherwise; watched for 3.4 s after Stop; connections are attributed to the device by exclusion (every connection of the harness itself is known by its local address)",
         "the context given to Stop/UpdateAddr has a deadline or is finished (with context.Background() closeLocked waits for a client that never becomes ready)",
         "a stale onConnect (SetReaderConfig still pending when its connection ended) is outside the model; scripts avoid it except right after an address change during back-off, where the next connection is kept until it has been absorbed",
         "Go: net.Dialer resolves a host name once per dial through net.DefaultResolver (used to observe every attempt incl. refused ones); retry.Quick/Slow replaced by constant 100ms/200ms waits without jitter during the harness run; durations are never compared",
@@ -195,6 +229,24 @@ def run(tier, seed, replay=None):
         scripts = (["readd 20 0", "readd 20 2", "readd 10 5"] if thorough else ["readd 5 0", "readd 4 2"]) + scripts
         # Stop right after NewLLRPDevice (about to dial): either of the model's two Stop events
         scripts = ["1 Y", "0 Y", "1 y Q", "1 Y U1 Q", "0 y U1"] + scripts
+        # what the supervisor model treats as atomic takes time (Driver/SupervisorFlight.v):
+        # (a) one SDK call at a time is SLOW (made at H.., returns at R): all feasible sequences of attempts / Drop / Stop /
+        #     H / R up to a length + random longer ones, walked on the model; what EdgeX ends holding is judged by the order
+        #     in which the calls RETURN;
+        orc, out = vlib.run_oracle("c15", "fsys %d\nfgen %d %d %d\n" % ((5, rnd.getrandbits(30), 250, 14) if thorough else (4, rnd.getrandbits(30), 40, 11)))
+        # always there: an Up that returns after its connection has gone and two attempts have failed; a Down in flight while the
+        # reader is ready to accept again; Stop in the quick back-off with the Down call slow; an Up released on a standing connection
+        holds = ["hold 0 H DE X DR R DR DR T", "hold 1 DE X H DR W R DE T", "hold 1 H DR T R", "hold 0 DR H DE R X DR DR T",
+                 # an Up call that outlasts a whole outage, still in flight when the reader accepts again (known finding)
+                 "hold 0 H DE X DE R T", "hold 0 H DE X DE X DR DR R T"]
+        for l in out.split("\n"):
+            l = l.strip()
+            if l.startswith("hold ") and l not in holds:
+                holds.append(l)
+        # (b) a dial that is neither accepted nor refused when Stop / RemoveDevice arrives (after k refused attempts), the reader
+        #     accepting afterwards: connections ESTABLISHED after Stop
+        pends = ["pend %s %d" % (how, k) for how in ("stop", "remove") for k in ((0, 1, 2) if thorough or how == "stop" else (0, 2))]
+        scripts = pends + holds + scripts
 
     crash_budget = [10]
 
@@ -250,7 +302,7 @@ def run(tier, seed, replay=None):
         missing = [i for i in range(len(reqs)) if answers[i] is None]
         rc = 0 if not missing else 1
         lines = [a if a is not None else "!noanswer" for a in answers]
-        orc, oout = vlib.run_oracle("c15", "consts\n" + "".join((s if s.startswith(("start ", "race ", "readd ")) else "run " + s) + "\n" for s in batch))
+        orc, oout = vlib.run_oracle("c15", "consts\n" + "".join((s if s.startswith(("start ", "race ", "readd ", "hold ", "pend ")) else "run " + s) + "\n" for s in batch))
         return rc, lines, glog_all, [l for l in oout.split("\n")]
 
     rc, lines, glog, olines = execute(scripts)
@@ -303,6 +355,16 @@ def run(tier, seed, replay=None):
             if int(gm.group(3)) != reps * int(mm.group(2)) or int(gm.group(5)) > 1:
                 d.append("connected after remove + add: Go %s of %s (at most %s at a time), registry model %s supervisor" % (gm.group(3), reps, gm.group(5), mm.group(2)))
             return d
+        if s.startswith("pend "):
+            if g.startswith("skip:"):
+                return []       # the environment does not make a dial hang: not judged (counted in the evidence)
+            gm = re.match(r"late=(\d+) ", g)
+            mm = re.match(r"late=(\d+)$", o)
+            if not gm or not mm:
+                return ["irregular: %s / %s" % (g[:80], o[:80])]
+            return [] if gm.group(1) == mm.group(1) else ["connections established after Stop: Go %s, model %s" % (gm.group(1), mm.group(1))]
+        if s.startswith("hold "):
+            return differs(g, o)
         if s.startswith("start "):
             gt, gup = parse(g)
             mt, mup = parse(o)
@@ -356,6 +418,24 @@ def run(tier, seed, replay=None):
             if m and int(m.group(5)) > 1:
                 return [("orphan-supervisor", "remove + add of one name: up to %s connections at a time" % m.group(5))]
             return []
+        if s.startswith("pend "):
+            m = re.match(r"late=(\d+) ", g)
+            if m and int(m.group(1)) > 0:
+                return [("dial-after-stop", "%s arrived while a dial of the device was in flight (the reader's accept queue full, after %s refused attempt(s)); the reader "
+                         "then started accepting: %s connection(s) of the stopped device were established after Stop had returned (%s)" %
+                         ("RemoveDevice" if s.split()[1] == "remove" else "Stop", s.split()[2], m.group(1), g))]
+            return []
+        if s.startswith("hold "):
+            toks = parse(g)[0]
+            bad = clauses(s.split()[1] == "1", toks)
+            # an Up call still in flight when the reader accepts the NEXT connection (it outlasts a whole outage): the two onConnect
+            # goroutines overlap. Violations of such a history carry their own signature (known finding, DESIGN §6).
+            if bad and "cU" in toks:
+                i = toks.index("cU")
+                j = toks.index("rU+h") if "rU+h" in toks[i:] else len(toks)
+                if "hs" in toks[i + 1:j]:
+                    bad = [(sig + ":up-call-outlasts-outage", text) for sig, text in bad]
+            return bad
         if s.startswith("start "):
             exp, up = start_expected(s)
             gt, gup = parse(g)
@@ -374,6 +454,7 @@ def run(tier, seed, replay=None):
             alt_model[s] = o
 
     evals, retried, flaky = 0, 0, 0
+    pend_skipped, slow_calls = [], [0]
     dist = {}
     nontriv = set()
     samples = []
@@ -387,6 +468,19 @@ def run(tier, seed, replay=None):
             dist["start"] = dist.get("start", 0) + 1
             if len(s.split()[2]) >= 2:
                 nontriv.add(s)
+        elif s.startswith("pend "):
+            dist["pend"] = dist.get("pend", 0) + 1
+            if g.startswith("skip:"):
+                pend_skipped.append("%s -> %s" % (s, g))
+            else:
+                nontriv.add(s)
+        elif s.startswith("hold "):
+            dist["hold"] = dist.get("hold", 0) + 1
+            for t in s.split()[2:]:
+                dist["hold:" + t] = dist.get("hold:" + t, 0) + 1
+            if any(re.match(r"^c[UD]$", t) for t in parse(g)[0]):
+                nontriv.add(s)      # a call really was in flight
+                slow_calls[0] += 1
         else:
             for t in s.split()[1:]:
                 k = t if t[0] in "DQ" or t in "XTtFGqYy" else t[0]
@@ -452,8 +546,11 @@ def run(tier, seed, replay=None):
              "(dial outcomes, Drop, Stop, UpdateAddr, SDK failure on/off, TrySend; only steps the harness can place deterministically); "
              "distinct by script text; non-trivial iff >= 2 attempts and at least one failure, address change or request" % ("3" if thorough else "2"),
         samples=samples, input_distribution=dist, traces_validated_against_impl=evals,
+        slow_sdk_call_scripts=dist.get("hold", 0), scripts_with_a_call_in_flight=slow_calls[0],
+        pending_dial_scenarios=dist.get("pend", 0), pending_dial_scenarios_skipped=pend_skipped,
         differing_on_first_run=n_suspects, rerun_because_different=retried, resolved_on_rerun=flaky,
         clauses_evaluated_on_every_history=["no-dial", "down-missing", "down-premature", "up-missing", "not-alternating",
-                                            "dial-after-stop", "addr-not-followed", "send-more-than-3", "send-retried-other-error"],
+                                            "dial-after-stop", "addr-not-followed", "send-more-than-3", "send-retried-other-error",
+                                            "down-while-connected", "report-overtaken", "state-not-following-reachability"],
         trusted_base=res.assumptions)
     return res.finish()
